@@ -106,25 +106,30 @@ def apply_ops_map(ops):
     return m
 
 
-def tex_lex(m, s):
-    """TeX's lexical rules (TeXbook ch. 7-8) over a char->category map; unlisted characters are 'other' (12).
+class TexLexer:
+    """TeX's lexical rules (TeXbook ch. 7-8) over a char->category map `m` (a dict the caller may change between pulls;
+    unlisted characters are 'other' (12)), pulled one token at a time like TeX's get_next.
     Conventions of plasTeX the statement is silent about (DESIGN.md C01): control symbol/`\\ ` leave state M, `\\`+EOL is a
     space (state S), `\\` at end of input is the empty control sequence, only the one-character ^^X form, a second
     consecutive \\par is suppressed, active characters are control sequences named active::c."""
-    cat = lambda c: m.get(c, 12)
-    s = list(s)
-    out = []
-    state, prevpar = 'N', False
 
-    def nxt(i):
+    def __init__(self, m, s):
+        self.m, self.s, self.i = m, list(s), 0
+        self.state, self.prevpar = 'N', False
+
+    def cat(self, c):
+        return self.m.get(c, 12)
+
+    def nxt(self, i):
         # next significant character at or after i: (code, char, index after it) or None
+        s = self.s
         while i < len(s):
             c = s[i]
-            k = cat(c)
+            k = self.cat(c)
             if k == 7 and i + 2 < len(s) and s[i + 1] == c:
                 o = ord(s[i + 2])
                 x = chr(o - 64) if o >= 64 else chr(o + 64)
-                k = cat(x)
+                k = self.cat(x)
                 c = x
                 i += 2
             if k in (9, 15):
@@ -133,57 +138,105 @@ def tex_lex(m, s):
             return k, c, i + 1
         return None
 
-    def skipline(i):
+    def skipline(self, i):
+        s = self.s
         while i < len(s) and s[i] != '\n':
             i += 1
         return i + 1
 
-    i = 0
-    while True:
-        r = nxt(i)
-        if r is None:
-            break
-        k, c, i = r
-        if k == 0:
-            r2 = nxt(i)
-            if r2 is None:
-                out.append((0, '')); prevpar = False; state = 'M'; break
-            k2, c2, j = r2
-            if k2 == 11:
-                name = c2
-                while True:
-                    r3 = nxt(j)
-                    if r3 is None or r3[0] != 11:
-                        break
-                    name += r3[1]; j = r3[2]
-                if r3 is not None:
-                    # the character that ended the name is examined again (in its decoded form)
-                    s[:r3[2]] = [r3[1]]
-                    j = 0
-                out.append((0, name)); prevpar = (name == 'par'); state = 'S'; i = j
-            elif k2 == 5:
-                out.append((10, ' ')); prevpar = False; state = 'S'; i = j
+    def emit(self, tok, state, par=False):
+        self.state, self.prevpar = state, par
+        return tok
+
+    def pull(self):
+        while True:
+            r = self.nxt(self.i)
+            if r is None:
+                self.i = len(self.s)
+                return None
+            k, c, self.i = r
+            if k == 0:
+                r2 = self.nxt(self.i)
+                if r2 is None:
+                    self.i = len(self.s)
+                    return self.emit((0, ''), 'M')
+                k2, c2, j = r2
+                if k2 == 11:
+                    name = c2
+                    while True:
+                        r3 = self.nxt(j)
+                        if r3 is None or r3[0] != 11:
+                            break
+                        name += r3[1]; j = r3[2]
+                    if r3 is not None:
+                        # the character that ended the name is examined again (in its decoded form)
+                        self.s[:r3[2]] = [r3[1]]
+                        j = 0
+                    self.i = j
+                    return self.emit((0, name), 'S', name == 'par')
+                self.i = j
+                if k2 == 5:
+                    return self.emit((10, ' '), 'S')
+                return self.emit((0, c2), 'M')
+            elif k == 5:
+                st = self.state
+                if st == 'N':
+                    if c != '\n':
+                        self.i = self.skipline(self.i)
+                    if not self.prevpar:
+                        return self.emit((0, 'par'), 'N', True)
+                elif st == 'M':
+                    return self.emit((10, ' '), 'N')
+                self.state = 'N'
+            elif k == 10:
+                if self.state == 'M':
+                    return self.emit((10, ' '), 'S')
+            elif k == 14:
+                self.i = self.skipline(self.i); self.state = 'N'
+            elif k == 13:
+                return self.emit((0, 'active::' + c), 'M')
             else:
-                out.append((0, c2)); prevpar = False; state = 'M'; i = j
-        elif k == 5:
-            if state == 'N':
-                if c != '\n':
-                    i = skipline(i)
-                if not prevpar:
-                    out.append((0, 'par')); prevpar = True
-            elif state == 'M':
-                out.append((10, ' ')); prevpar = False
-            state = 'N'
-        elif k == 10:
-            if state == 'M':
-                out.append((10, ' ')); prevpar = False; state = 'S'
-        elif k == 14:
-            i = skipline(i); state = 'N'
-        elif k == 13:
-            out.append((0, 'active::' + c)); prevpar = False; state = 'M'
-        else:
-            out.append((k, c)); prevpar = False; state = 'M'
-    return out
+                return self.emit((k, c), 'M')
+
+
+def tex_lex(m, s):
+    lx = TexLexer(m, s)
+    out = []
+    while True:
+        t = lx.pull()
+        if t is None:
+            return out
+        out.append(t)
+
+
+def apply_op_map(m, op):
+    if op == 'D':
+        m.clear(); m.update(default_map())
+    elif op == 'V':
+        m.clear(); m.update({c: 11 for c in LETTERS})
+    else:
+        a, b = op.split('=')
+        m[chr(int(a))] = int(b)
+
+
+def tex_lex_dyn(sched, s):
+    """schedule = [(ops, n), ...]: apply the \\catcode operations, pull n tokens, ...; finally pull everything"""
+    m = default_map()
+    lx = TexLexer(m, s)
+    out = []
+    for ops, n in sched:
+        for op in ops:
+            apply_op_map(m, op)
+        for _ in range(n):
+            t = lx.pull()
+            if t is None:
+                break
+            out.append(t)
+    while True:
+        t = lx.pull()
+        if t is None:
+            return out
+        out.append(t)
 
 
 # ---------------------------------------------------------------- generation
@@ -232,6 +285,18 @@ def generate(ctx):
         ops = [rng.choice(['D', 'V'])] + ['%d=%d' % (ord(c), rng.randint(0, 15)) for _ in range(rng.randint(3, 5))]
         yield Case('code', line(ops, c + 'b'), None)
         yield Case('tok', line(ops, 'x' + c + 'y' + c + c + 'z'), None)
+    # category changes *between token pulls* (what \\catcode in a document does): schedule `ops ; n ; ops ; n ...`
+    for _ in range(3000 if ctx.tier == 'quick' else 60000):
+        segs = []
+        for _ in range(rng.randint(1, 4)):
+            c = rng.choice('!a\\%^ @{\n')
+            ops = ['%d=%d' % (ord(c), rng.randint(0, 15)) for _ in range(rng.randint(0, 2))]
+            if rng.random() < 0.1:
+                ops.insert(0, rng.choice(['D', 'V']))
+            segs.append((ops, rng.randint(0, 4)))
+        alpha = '!!aa\\\\%^^ @@{\n\nxM'
+        s_ = ''.join(rng.choice(alpha) for _ in range(rng.randint(0, 14)))
+        yield Case('dyn', ' ; '.join(' '.join(o) + ' ; %d' % k_ for o, k_ in segs) + ' | ' + enc(s_), None)
     n = 6000 if ctx.tier == 'quick' else 150000
     for _ in range(n):
         k = rng.choice([3, 6, 10, 20, 40, 200]) if rng.random() < 0.9 else rng.randint(0, 8)
@@ -253,6 +318,8 @@ def corpus():
         Case('tok', line(['D'], 'a\n\n\n\nb\\par\n\nc'), None, 'corpus'),
         Case('tok', line(['D'], 'x % c\n  y\\'), None, 'corpus'),
         Case('tok', line(['D'], '\\a^'), None, 'corpus'),
+        Case('dyn', 'D ; 1 ; 33=11 ; 0 | ' + enc('!!!'), None, 'corpus'),          # \catcode`\!=11 between two reads of the same character
+        Case('dyn', 'D ; 1 ; 64=11 ; 0 | ' + enc('\\f@@ x'), None, 'corpus'),      # the pushed-back character is re-read under the new table
     ]
 
 
@@ -304,9 +371,40 @@ def canon(pairs):
     return ' '.join(out)
 
 
+def parse_dyn(case):
+    schedw, cps = case.line.split('|')
+    parts = [x.split() for x in schedw.split(';')]
+    sched = [(parts[i], int(parts[i + 1][0])) for i in range(0, len(parts) - 1, 2)]
+    return sched, ''.join(chr(int(x)) for x in cps.split())
+
+
 def impl(case, aux):
     from plasTeX.Tokenizer import Tokenizer
     ctx = _ctx()
+    if case.stream == 'dyn':
+        sched, s = parse_dyn(case)
+        set_table(ctx, [])
+        out = []
+        try:
+            it = iter(Tokenizer(s, ctx))
+            for ops, n in sched:
+                for op in ops:
+                    if op == 'D':
+                        set_table(ctx, [])
+                    elif op == 'V':
+                        ctx.setVerbatimCatcodes()
+                    else:
+                        a, b = op.split('=')
+                        ctx.catcode(chr(int(a)), int(b))
+                for _ in range(n):
+                    t = next(it, None)
+                    if t is None:
+                        break
+                    out.append((t.catcode, str(t)))
+            out += [(t.catcode, str(t)) for t in it]
+            return canon(out)
+        except Exception as e:
+            return 'err:' + type(e).__name__
     ops, s = parse_line(case)
     set_table(ctx, ops)
     if case.stream == 'code':
@@ -318,6 +416,12 @@ def impl(case, aux):
 
 
 def judge(o):
+    if o.case.stream == 'dyn':
+        sched, s = parse_dyn(o.case)
+        o.spec = canon(tex_lex_dyn(sched, s))
+        o.corr_ok = (o.impl == o.model)
+        o.prop_ok = (o.impl == o.spec)
+        return
     ops, s = parse_line(o.case)
     m = apply_ops_map(ops)
     if o.case.stream == 'code':
@@ -331,6 +435,21 @@ def judge(o):
 
 def shrink(ctx, o, evaluate):
     """delta-debug the string (and drop table ops) keeping the property failure"""
+    if o.case.stream == 'dyn':
+        best = o
+        changed = True
+        while changed:
+            changed = False
+            sched, s = parse_dyn(best.case)
+            cands = [(sched, s[:i] + s[i + 1:]) for i in range(len(s))]
+            cands += [(sched[:i] + sched[i + 1:], s) for i in range(len(sched)) if len(sched) > 1]
+            cands += [(sched[:i] + [(sched[i][0][:j] + sched[i][0][j + 1:], sched[i][1])] + sched[i + 1:], s)
+                      for i in range(len(sched)) for j in range(len(sched[i][0]))]
+            cs = [Case('dyn', ' ; '.join(' '.join(o_) + ' ; %d' % k_ for o_, k_ in a) + ' | ' + enc(b), None, 'shrink') for a, b in cands]
+            for r in evaluate(cs[:300]):
+                if not r.prop_ok:
+                    best = r; changed = True; break
+        return best
     ops, s = parse_line(o.case)
     best = o
     changed = True
